@@ -422,3 +422,26 @@ def run(repo, sink, fns):
 
 def r16x_exchange(repo, sink):
     run(repo, sink, (r16x_output_get_info, r16x_input_exchange, r16x_adapter_plumbing))
+
+
+def built_output(repo, cls_name="Output", ctor=None, targets=(), pinged=(), n_exchanged=None, own=None):
+    """An output (or adapter seen from downstream) as the real code leaves it: constructed by partial evaluation of its
+    constructors, given its info by push_info, linked by add_target, end points registered by pinged, infos exchanged by
+    get_info.  No private attribute is named."""
+    from ..absbase import seed_from_init
+    c = repo.cls(cls_name)
+    it = ExchInterp(repo)
+    o = Obj(cls=c, label=cls_name)
+    params = {"name": "out", "info": None, "static": False}
+    params.update(ctor or {})
+    seed_from_init(it, c, o, params)
+    o.fields["logger"] = Logger(label="logger")
+    own = own if own is not None else xinfo("own", G1, T1, U1)
+    it.run(repo.resolve(c, "push_info", "method"), [own], self_obj=o)
+    for t in targets:
+        it.run(repo.resolve(c, "add_target", "method"), [t], self_obj=o)
+    for e in pinged:
+        it.run(repo.resolve(c, "pinged", "method"), [e], self_obj=o)
+    for _k in range(len(pinged) if n_exchanged is None else n_exchanged):
+        it.run(repo.resolve(c, "get_info", "method"), [xinfo("req", G1, T1, U1)], self_obj=o)
+    return o
